@@ -398,3 +398,286 @@ Print Assumptions C06_generated_staging_is_model_up_to_dict_order.
 Print Assumptions C06_generated_staging_is_model.
 Print Assumptions C06_generated_staging_terminates.
 Print Assumptions C06_generated_staging_trains_each_once.
+
+(* ================================================================================================================
+   The R-vs-Q instance gap, closed by proof (base/NumHom.v, proofs/QR_bridge_C06.v).
+   The theorems above hold for EVERY value algebra / node algebra (C06_fit_valid_staging, C06_train_is_explicit, ...), in
+   particular for the one built at F := R from model/Kinds.v (forward nodes), model/Ridge.v (offline readout) and
+   model/Online.v (RLS / LMS readouts).  The correspondence run (run/RunC06.v: chk_fit, chk_train, chk_train_explicit,
+   chk_train_calls) evaluates the algebra built from the SAME generic terms at F := Q ([g_run], [g_fit], [g_pred], [g_ncall],
+   [g_nlearn], [g_env0] of proofs/QR_bridge_C06.v are RunC06's q_* re-stated over any [Num F], solver as a parameter:
+   C06_Qtwins).  Model.fit / Model.train themselves are number-free and FUNCTORIAL in the algebra (C06_fit_functorial,
+   C06_train_functorial); [Q2R] is a homomorphism of the [Num] class, every node kind of Kinds.v, the run of a node over a
+   dataset (state carried or reset), hstack, the ridge fit / prediction and the online call / learn / initial environment
+   commute with the entry-wise embedding.  Hence: evaluating Model.fit / Model.train at Q and embedding = evaluating the R
+   instance on the embedded data, failures included.  Environments (functions of the node id) are related POINT-WISE: no
+   functional extensionality.  No shape hypothesis; no activation side condition ([actk] enumerates exactly computable ones).
+   WHAT STAYS TRUSTED (offline side only): the hypothesis [forall A B, qm2r (qsolve_tot A B) = solveR (qm2r A) (qm2r B)] relating
+   the runner's Gauss-Jordan routine to the solver of the R instance (as in C04); the online theorems have no hypothesis. *)
+From Coq Require Import Reals Qreals.
+From RV Require Import base.NumHom model.Online proofs.QR_bridge_C10 proofs.QR_bridge_C06 run.RunC06.
+Local Close Scope Q_scope.
+
+(* Model.fit with ANY staging and the explicit procedure commute with any map of value algebras (no numbers involved) *)
+Theorem C06_fit_functorial (D1 P1 D2 P2 : Type) (eD : D1 -> D2) (eP : P1 -> P2)
+        (run1 : nat -> list D1 -> D1) (fit1 : nat -> list D1 -> D1 -> P1) (pred1 : nat -> P1 -> list D1 -> D1)
+        (run2 : nat -> list D2 -> D2) (fit2 : nat -> list D2 -> D2 -> P2) (pred2 : nat -> P2 -> list D2 -> D2) :
+  (forall v ins, eD (run1 v ins) = run2 v (map eD ins)) ->
+  (forall v ins y, eP (fit1 v ins y) = fit2 v (map eD ins) (eD y)) ->
+  (forall v p ins, eD (pred1 v p ins) = pred2 v (eP p) (map eD ins)) ->
+  forall (g : graph) (X0 Y0 : list (nat * D1)) (stg : list stage),
+    option_map (emap eP) (fit_with_staging D1 P1 run1 fit1 pred1 g X0 Y0 stg)
+    = fit_with_staging D2 P2 run2 fit2 pred2 g (emap eD X0) (emap eD Y0) stg /\
+    emap eP (explicit_fit D1 P1 run1 fit1 pred1 g X0 Y0) = explicit_fit D2 P2 run2 fit2 pred2 g (emap eD X0) (emap eD Y0).
+Proof.
+  intros Hr Hf Hp g X0 Y0 stg. split.
+  - exact (f_fit_with_staging D1 P1 D2 P2 eD eP run1 fit1 pred1 run2 fit2 pred2 Hr Hf Hp g X0 Y0 stg).
+  - exact (f_explicit_fit D1 P1 D2 P2 eD eP run1 fit1 pred1 run2 fit2 pred2 Hr Hf Hp g X0 Y0).
+Qed.
+
+(* Model.train and the explicit per-timestep loop commute with any map of node algebras: point-wise related environments and
+   steps give point-wise related final environments and mapped returned rows *)
+Theorem C06_train_functorial (V1 NS1 V2 NS2 : Type) (eV : V1 -> V2) (eN : NS1 -> NS2)
+        (vcat1 : list V1 -> V1) (ncall1 : nat -> NS1 -> V1 -> NS1) (nout1 : nat -> NS1 -> V1) (nlearn1 : nat -> NS1 -> V1 -> V1 -> NS1)
+        (vcat2 : list V2 -> V2) (ncall2 : nat -> NS2 -> V2 -> NS2) (nout2 : nat -> NS2 -> V2) (nlearn2 : nat -> NS2 -> V2 -> V2 -> NS2) :
+  (forall l, eV (vcat1 l) = vcat2 (map eV l)) ->
+  (forall v s x, eN (ncall1 v s x) = ncall2 v (eN s) (eV x)) ->
+  (forall v s, eV (nout1 v s) = nout2 v (eN s)) ->
+  (forall v s x y, eN (nlearn1 v s x y) = nlearn2 v (eN s) (eV x) (eV y)) ->
+  forall (m : tmodel) (k : nat) steps1 steps2 (e1 : nat -> NS1) (e2 : nat -> NS2),
+    Forall2 (step_rel V1 V2 eV) steps1 steps2 -> (forall v, eN (e1 v) = e2 v) ->
+    ((forall v, eN (fst (model_train V1 NS1 vcat1 ncall1 nout1 nlearn1 m k e1 steps1) v)
+                = fst (model_train V2 NS2 vcat2 ncall2 nout2 nlearn2 m k e2 steps2) v) /\
+     map (map eV) (snd (model_train V1 NS1 vcat1 ncall1 nout1 nlearn1 m k e1 steps1))
+     = snd (model_train V2 NS2 vcat2 ncall2 nout2 nlearn2 m k e2 steps2)) /\
+    forall ups r,
+      (forall v, eN (fst (explicit_train V1 NS1 vcat1 ncall1 nout1 nlearn1 ups r m k e1 steps1) v)
+                 = fst (explicit_train V2 NS2 vcat2 ncall2 nout2 nlearn2 ups r m k e2 steps2) v) /\
+      map eV (snd (explicit_train V1 NS1 vcat1 ncall1 nout1 nlearn1 ups r m k e1 steps1))
+      = snd (explicit_train V2 NS2 vcat2 ncall2 nout2 nlearn2 ups r m k e2 steps2).
+Proof.
+  intros Hc Hn Ho Hl m k steps1 steps2 e1 e2 Hs He. split.
+  - exact (r_model_train V1 NS1 V2 NS2 eV eN vcat1 ncall1 nout1 nlearn1 vcat2 ncall2 nout2 nlearn2 Hc Hn Ho Hl m k steps1 steps2 e1 e2 Hs He).
+  - intros ups r. exact (r_explicit_train V1 NS1 V2 NS2 eV eN vcat1 ncall1 nout1 nlearn1 vcat2 ncall2 nout2 nlearn2 Hc Hn Ho Hl ups r m k steps1 steps2 e1 e2 Hs He).
+Qed.
+
+(* the generic twins at F := Q (with qsolve_tot) ARE the definitions of run/RunC06.v *)
+Theorem C06_Qtwins :
+  hcat2 = hcat2P (A:=Q) /\ hcats = hcatsP (A:=Q) /\ run_seq = run_seqF (F:=Q) /\ run_data = run_dataF (F:=Q) /\
+  (forall nodes reset init v ins, q_run nodes reset init v ins = g_run (emap to_g nodes) reset init v ins) /\
+  (forall nodes w v ins y, q_fit nodes w v ins y = g_fit qsolve_tot (emap to_g nodes) w v ins y) /\
+  (forall nodes v p ins, q_pred nodes v p ins = g_pred (emap to_g nodes) v p ins) /\
+  (forall tnodes v s x, to_gns (q_ncall tnodes v s x) = g_ncall (emap to_gt tnodes) v (to_gns s) x) /\
+  (forall tnodes v s x y, to_gns (q_nlearn tnodes v s x y) = g_nlearn (emap to_gt tnodes) v (to_gns s) x y) /\
+  (forall tnodes v, to_gns (q_env0 tnodes v) = g_env0 (emap to_gt tnodes) v).
+Proof.
+  exact (conj hcat2_twin (conj hcats_twin (conj run_seq_twin (conj run_data_twin (conj q_run_twin (conj q_fit_twin
+        (conj q_pred_twin (conj q_ncall_twin (conj q_nlearn_twin q_env0_twin))))))))).
+Qed.
+
+(* every node kind of model/Kinds.v: state, hidden memory, input, feedback |-> result (None of a failing node included) *)
+Theorem C06_Qkinds_embed (k : kind (F:=Q)) (s : list Q) (h : hidden (F:=Q)) (x : list Q) (fb : option (list Q)) :
+  kfwd (ekind Q2R k) (qv2r s) (qm2r h) (qv2r x) (option_map qv2r fb)
+  = option_map (fun p => (qv2r (fst p), qm2r (snd p))) (kfwd k s h x fb).
+Proof. exact (e_kfwd Q2R k s h x fb). Qed.
+
+(* the value algebra of Model.fit and the node algebra of Model.train, operation by operation *)
+Theorem C06_Qalgebra_embeds (solveR : list (list R) -> list (list R) -> list (list R)) :
+  (forall A B, qm2r (qsolve_tot A B) = solveR (qm2r A) (qm2r B)) ->
+  (forall nodes reset init v ins, qd2r (q_run nodes reset init v ins) = r_run nodes reset init v (map qd2r ins)) /\
+  (forall nodes w v ins y, par2r (q_fit nodes w v ins y) = r_fit solveR nodes w v (map qd2r ins) (qd2r y)) /\
+  (forall nodes v p ins, qd2r (q_pred nodes v p ins) = r_pred nodes v (par2r p) (map qd2r ins)) /\
+  (forall tnodes v s x, ns2r (q_ncall tnodes v s x) = r_ncall tnodes v (ns2r s) (qv2r x)) /\
+  (forall tnodes v s x y, ns2r (q_nlearn tnodes v s x y) = r_nlearn tnodes v (ns2r s) (qv2r x) (qv2r y)) /\
+  (forall tnodes v, ns2r (q_env0 tnodes v) = r_env0 tnodes v).
+Proof.
+  exact (fun Hs => conj Qrun_embeds (conj (fun nodes w v ins y => Qnodefit_embeds solveR nodes w v ins y Hs)
+        (conj Qpred_embeds (conj Qncall_embeds (conj Qnlearn_embeds Qenv0_embeds))))).
+Qed.
+
+(* Model.fit with any staging: same success flag, every readout's (Wout, bias) embedded; and the explicit procedure *)
+Theorem C06_Qfit_embeds (solveR : list (list R) -> list (list R) -> list (list R)) (nodes : list (nat * nkind)) (w : nat) (reset : bool)
+        (init : list (nat * qv)) (g : graph) (X0 Y0 : list (nat * qd)) (stg : list stage) :
+  (forall A B, qm2r (qsolve_tot A B) = solveR (qm2r A) (qm2r B)) ->
+  option_map (emap par2r) (fit_with_staging qd (option (qm * qv)) (q_run nodes reset init) (q_fit nodes w) (q_pred nodes) g X0 Y0 stg)
+  = fit_with_staging (list (list (list R))) (option (list (list R) * list R)) (r_run nodes reset init) (r_fit solveR nodes w) (r_pred nodes)
+                     g (emap qd2r X0) (emap qd2r Y0) stg.
+Proof. exact (Qfit_embeds solveR nodes w reset init g X0 Y0 stg). Qed.
+Theorem C06_Qexplicit_fit_embeds (solveR : list (list R) -> list (list R) -> list (list R)) (nodes : list (nat * nkind)) (w : nat)
+        (reset : bool) (init : list (nat * qv)) (g : graph) (X0 Y0 : list (nat * qd)) :
+  (forall A B, qm2r (qsolve_tot A B) = solveR (qm2r A) (qm2r B)) ->
+  emap par2r (explicit_fit qd (option (qm * qv)) (q_run nodes reset init) (q_fit nodes w) (q_pred nodes) g X0 Y0)
+  = explicit_fit (list (list (list R))) (option (list (list R) * list R)) (r_run nodes reset init) (r_fit solveR nodes w) (r_pred nodes)
+                 g (emap qd2r X0) (emap qd2r Y0).
+Proof. exact (Qexplicit_fit_embeds solveR nodes w reset init g X0 Y0). Qed.
+
+(* Model.train (any learn_every, any starting environment) and the explicit loop: NO hypothesis *)
+Theorem C06_Qtrain_embeds (tnodes : list (nat * tkind)) (m : tmodel) (k : nat) (e : nat -> qns) (eR : nat -> gns (F:=R))
+        (steps : list (list (nat * qv) * list (nat * qv))) :
+  (forall v, ns2r (e v) = eR v) ->
+  let rQ := model_train qv qns (@concat Q) (q_ncall tnodes) (fun _ s => ns_st s) (q_nlearn tnodes) m k e (to_st steps) in
+  let rR := model_train (list R) (gns (F:=R)) (@concat R) (r_ncall tnodes) r_nout (r_nlearn tnodes) m k eR (to_st (steps2r steps)) in
+  (forall v, ns2r (fst rQ v) = fst rR v) /\ map qm2r (snd rQ) = snd rR.
+Proof. exact (Qtrain_embeds tnodes m k e eR steps). Qed.
+Theorem C06_Qexplicit_train_embeds (tnodes : list (nat * tkind)) (ups : list nat) (r : nat) (m : tmodel) (k : nat) (e : nat -> qns)
+        (eR : nat -> gns (F:=R)) (steps : list (list (nat * qv) * list (nat * qv))) :
+  (forall v, ns2r (e v) = eR v) ->
+  let rQ := explicit_train qv qns (@concat Q) (q_ncall tnodes) (fun _ s => ns_st s) (q_nlearn tnodes) ups r m k e (to_st steps) in
+  let rR := explicit_train (list R) (gns (F:=R)) (@concat R) (r_ncall tnodes) r_nout (r_nlearn tnodes) ups r m k eR (to_st (steps2r steps)) in
+  (forall v, ns2r (fst rQ v) = fst rR v) /\ qm2r (snd rQ) = snd rR.
+Proof. exact (Qexplicit_train_embeds tnodes ups r m k e eR steps). Qed.
+
+Print Assumptions C06_fit_functorial.
+Print Assumptions C06_train_functorial.
+Print Assumptions C06_Qtwins.
+Print Assumptions C06_Qkinds_embed.
+Print Assumptions C06_Qalgebra_embeds.
+Print Assumptions C06_Qfit_embeds.
+Print Assumptions C06_Qexplicit_fit_embeds.
+Print Assumptions C06_Qtrain_embeds.
+Print Assumptions C06_Qexplicit_train_embeds.
+
+(* ---- the verdicts of the correspondence runner, read at R ----
+   The graph parts of chk_fit (staging, valid_stagingb) contain no number and are kept; the numeric parts become statements
+   about the R instance (r_run / r_fit solveR / r_pred; r_ncall / r_nlearn / r_env0) on the embedded data, with the real
+   inequality |model - observed| <= 1e-9 * max(1,|model|) entry-wise ([mrclose], [vrclose]; [param_closeR], [rdo_closeR],
+   [mmrclose], [calls_closeR] are their obvious liftings).  chk_fit_raises is purely symbolic: nothing to bridge. *)
+Theorem C06_chk_fit_is_about_R_model (solveR : list (list R) -> list (list R) -> list (list R))
+      (nodes : list (nat * nkind)) (g : graph) (X0 Y0 : list (nat * qd)) (w : nat) (reset : bool)
+      (init : list (nat * qv)) (obs_stg : list stage) (expect_valid : bool) (obs : list (nat * (qm * qv))) :
+  (forall A B, qm2r (qsolve_tot A B) = solveR (qm2r A) (qm2r B)) ->
+  chk_fit nodes g X0 Y0 w reset init obs_stg expect_valid obs = true ->
+  (exists stg, get_offline_subgraphs g = Some stg /\ stages_eqb stg obs_stg = true) /\
+  valid_stagingb g (map fst X0) (map fst Y0) obs_stg = expect_valid /\
+  (exists psR, fit_with_staging (list (list (list R))) (option (list (list R) * list R)) (r_run nodes reset init) (r_fit solveR nodes w)
+                 (r_pred nodes) g (emap qd2r X0) (emap qd2r Y0) obs_stg = Some psR /\
+               forall o, In o obs -> param_closeR (lookup psR (fst o)) (fst (snd o)) (snd (snd o))) /\
+  (expect_valid = true -> forall o, In o obs ->
+     param_closeR (lookup (explicit_fit (list (list (list R))) (option (list (list R) * list R)) (r_run nodes reset init)
+                                        (r_fit solveR nodes w) (r_pred nodes) g (emap qd2r X0) (emap qd2r Y0)) (fst o))
+                  (fst (snd o)) (snd (snd o))).
+Proof. exact (chk_fit_is_about_R_model solveR nodes g X0 Y0 w reset init obs_stg expect_valid obs). Qed.
+
+Theorem C06_chk_train_is_about_R_model (tnodes : list (nat * tkind)) (order : list nat) (es : list (nat * nat)) (online outs : list nat)
+      (k : nat) (steps : list (list (nat * qv) * list (nat * qv))) (obs_outs : list (list qv)) (obs_par : list (nat * (qm * qv * qm))) :
+  chk_train tnodes order es online outs k steps obs_outs obs_par = true ->
+  let rR := r_train tnodes (to_tmodel order es online outs) k (r_env0 tnodes) steps in
+  mmrclose (snd rR) (map qm2r obs_outs) /\ forall p, In p obs_par -> rdo_closeR (fst rR (fst p)) (snd p).
+Proof. exact (chk_train_is_about_R_model tnodes order es online outs k steps obs_outs obs_par). Qed.
+
+Theorem C06_chk_train_explicit_is_about_R_model (tnodes : list (nat * tkind)) (ups : list nat) (r : nat) (es : list (nat * nat))
+      (k : nat) (steps : list (list (nat * qv) * list (nat * qv))) (obs_outs : list qv) (obs_par : qm * qv * qm) :
+  chk_train_explicit tnodes ups r es k steps obs_outs obs_par = true ->
+  let rR := r_explicit_train_of tnodes ups r (to_tmodel (ups ++ [r]) es [r] [r]) k (r_env0 tnodes) steps in
+  mrclose (snd rR) (qm2r obs_outs) /\ rdo_closeR (fst rR r) obs_par.
+Proof. exact (chk_train_explicit_is_about_R_model tnodes ups r es k steps obs_outs obs_par). Qed.
+
+Theorem C06_chk_train_calls_is_about_R_model (tnodes : list (nat * tkind)) (order : list nat) (es : list (nat * nat))
+      (online outs : list nat) (k : nat) (expl : option (list nat * nat))
+      (calls : list (list (list (nat * qv) * list (nat * qv)) * list (list qv) * list (nat * (qm * qv * qm)))) :
+  chk_train_calls tnodes order es online outs k expl calls = true ->
+  calls_closeR tnodes (to_tmodel order es online outs) k expl (r_env0 tnodes) calls.
+Proof. exact (chk_train_calls_is_about_R_model tnodes order es online outs k expl calls). Qed.
+
+(* what the Props of the verdicts say, spelled out *)
+Theorem C06_verdict_vocabulary :
+  (forall p W b, param_closeR p W b <-> exists Wm bm, p = Some (Some (Wm, bm)) /\ mrclose Wm (qm2r W) /\ vrclose bm (qv2r b)) /\
+  (forall s o, rdo_closeR s o <-> mrclose (Wout (gs_rdo s)) (qm2r (fst (fst o))) /\ vrclose (bias (gs_rdo s)) (qv2r (snd (fst o))) /\
+                                  mrclose (Pm (gs_rdo s)) (qm2r (snd o))) /\
+  (forall m o : R, rclose m o -> (Rabs (m - o) <= 1 / 1000000000 * Rmax 1 (Rabs m))%R).
+Proof. exact verdict_vocabulary. Qed.
+
+(* non-vacuity: an affine forward node feeding an RLS readout (two timesteps) / a Ridge readout (one sequence of three rows);
+   the runner answers true, and the R instance returns exactly the embedded rows of the Q run *)
+Example C06_chk_train_example :
+  chk_train exC06_tnodes [0; 1] [(0, 1)] [1] [1] 1 exC06_steps [[[0%Q]]; [[(-15#68)%Q]]]
+            [(1, ([[(3#22)%Q]], [(1#3)%Q], [[(1#3)%Q; 0%Q]; [0%Q; (2#11)%Q]]))] = true.
+Proof. exact chk_train_example. Qed.
+Example C06_Qtrain_example :
+  snd (r_train exC06_tnodes (to_tmodel [0; 1] [(0, 1)] [1] [1]) 1 (r_env0 exC06_tnodes) exC06_steps)
+  = map qm2r [[[0%Q]]; [[(-15#68)%Q]]].
+Proof. exact Qtrain_example. Qed.
+Example C06_chk_fit_example :
+  chk_fit exC06_nodes exC06_g exC06_X0 exC06_Y0 0 false [] [mkStage [0; 1] [(0, 1)] [(0, [1])]] true
+          [(1, ([[(122#265)%Q]], [(28#53)%Q]))] = true.
+Proof. exact chk_fit_example. Qed.
+
+Print Assumptions C06_chk_fit_is_about_R_model.
+Print Assumptions C06_chk_train_is_about_R_model.
+Print Assumptions C06_chk_train_explicit_is_about_R_model.
+Print Assumptions C06_chk_train_calls_is_about_R_model.
+Print Assumptions C06_verdict_vocabulary.
+
+(* ---- offline fit of models WITH FEEDBACK and ESN.fit (model/FitFb.v; run/RunC06.v chk_fit_fb, chk_esn_fit) ----
+   FitFb executes the forward nodes of every stage timestep by timestep through ModelSem.forward (proxies, clamps, start_env,
+   dispatch_fb); proofs/QR_bridge_C06.v relates that part of ModelSem for any homomorphism of the class (environments and
+   per-step data point-wise; models node by node: same ids, feedback sources, dimensions, related forward functions), then
+   run_sub / run_seqs / traj_of / rd_fit / run_stage_fb / fit_fb and esn_run / esn_seqs / esn_fit.  Same trusted hypothesis on
+   the solver as above.  [ofb_rel Q2R o o']: both None, or both Some with the final environment related point-wise and the
+   datasets, parameters, trained set and per-stage trajectories embedded (C06_fb_vocabulary). *)
+From RV Require Import model.FitFb.
+
+Theorem C06_Qfit_fb_embeds (solveR : list (list R) -> list (list R) -> list (list R)) (nodes : list fbnode) (rds : list (rdesc (F:=Q)))
+      (g : graph) (stg : list stage) (X Y : list (nat * qd)) (w : nat) (force reset : bool) (lens : list nat) :
+  (forall A B, qm2r (qsolve_tot A B) = solveR (qm2r A) (qm2r B)) ->
+  ofb_rel Q2R (fit_fb qsolve_tot (mkFM (map fn_nd nodes) g rds) stg X Y w force reset lens (fb_env0 nodes))
+              (fit_fb solveR (fmR nodes g rds) stg (emap qd2r X) (emap qd2r Y) w force reset lens (fb_env0R nodes)).
+Proof. exact (Qfit_fb_embeds solveR nodes rds g stg X Y w force reset lens). Qed.
+
+Theorem C06_Qesn_fit_embeds (solveR : list (list R) -> list (list R) -> list (list R)) (res rdn : fbnode) (r : rdesc (F:=Q))
+      (X Y : list (nat * qd)) (w : nat) (lens : list nat) :
+  (forall A B, qm2r (qsolve_tot A B) = solveR (qm2r A) (qm2r B)) ->
+  option_map (fun p => (par2r (fst p), qd2r (snd p))) (esn_fit qsolve_tot (fn_nd res) (fn_nd rdn) r X Y w lens (fb_env0 [res; rdn]))
+  = esn_fit solveR (fn_ndR res) (fn_ndR rdn) (erd Q2R r) (emap qd2r X) (emap qd2r Y) w lens (fb_env0R [res; rdn]).
+Proof. exact (Qesn_fit_embeds solveR res rdn r X Y w lens). Qed.
+
+Theorem C06_fb_vocabulary (o : option (fbstate (F:=Q))) (o' : option (fbstate (F:=R))) :
+  ofb_rel Q2R o o' <->
+  match o, o' with
+  | Some (e, Xs, ps, tr, log), Some (e', Xs', ps', tr', log') =>
+      (forall n, e' n = mkNS (qv2r (st (e n))) (qm2r (hid (e n)))) /\ Xs' = emap qd2r Xs /\ ps' = emap par2r ps /\ tr' = tr /\
+      log' = map (emap qd2r) log
+  | None, None => True
+  | _, _ => False
+  end.
+Proof. exact (fb_vocabulary o o'). Qed.
+
+Theorem C06_chk_fit_fb_is_about_R_model (solveR : list (list R) -> list (list R) -> list (list R))
+      (nodes : list fbnode) (rds : list (rdesc (F:=Q))) (g : graph) (X Y : list (nat * qd)) (w : nat)
+      (force reset : bool) (lens : list nat) (obs_stg : list stage) (obs_traj : list (nat * qm)) (obs : list (nat * (qm * qv))) :
+  (forall A B, qm2r (qsolve_tot A B) = solveR (qm2r A) (qm2r B)) ->
+  chk_fit_fb nodes rds g X Y w force reset lens obs_stg obs_traj obs = true ->
+  (exists stg, get_offline_subgraphs g = Some stg /\ stages_eqb stg obs_stg = true) /\
+  exists eR XsR psR trR logR,
+    fit_fb solveR (fmR nodes g rds) obs_stg (emap qd2r X) (emap qd2r Y) w force reset lens (fb_env0R nodes) = Some (eR, XsR, psR, trR, logR) /\
+    (forall o, In o obs -> param_closeR (lookup psR (fst o)) (fst (snd o)) (snd (snd o))) /\
+    (forall o, In o obs_traj -> mrclose (flat_trajP logR (fst o)) (qm2r (snd o))).
+Proof. exact (chk_fit_fb_is_about_R_model solveR nodes rds g X Y w force reset lens obs_stg obs_traj obs). Qed.
+
+Theorem C06_chk_esn_fit_is_about_R_model (solveR : list (list R) -> list (list R) -> list (list R))
+      (res rdn : fbnode) (r : rdesc (F:=Q)) (X Y : list (nat * qd)) (w : nat) (lens : list nat) (obs_traj : qm) (W : qm) (b : qv) :
+  (forall A B, qm2r (qsolve_tot A B) = solveR (qm2r A) (qm2r B)) ->
+  chk_esn_fit res rdn r X Y w lens obs_traj W b = true ->
+  let g := mkG [fn_id res; fn_id rdn] [(fn_id res, fn_id rdn)] [fn_id rdn] in
+  (exists pR xR, esn_fit solveR (fn_ndR res) (fn_ndR rdn) (erd Q2R r) (emap qd2r X) (emap qd2r Y) w lens (fb_env0R [res; rdn]) = Some (pR, xR) /\
+                 param_closeR (Some pR) W b /\ mrclose (concat xR) (qm2r obs_traj)) /\
+  (exists stg eR XsR psR trR logR,
+     get_offline_subgraphs g = Some stg /\
+     fit_fb solveR (fmR [res; rdn] g [r]) stg (emap qd2r X) (emap qd2r Y) w true true lens (fb_env0R [res; rdn]) = Some (eR, XsR, psR, trR, logR) /\
+     param_closeR (lookup psR (fn_id rdn)) W b /\ mrclose (flat_trajP logR (fn_id res)) (qm2r obs_traj)).
+Proof. exact (chk_esn_fit_is_about_R_model solveR res rdn r X Y w lens obs_traj W b). Qed.
+
+(* non-vacuity: a one-unit reservoir with a feedback connection from its Ridge readout, teacher forcing, three timesteps *)
+Example C06_chk_fit_fb_example :
+  chk_fit_fb [exC06_res; exC06_rd] [exC06_r] exC06_g exC06_X0 exC06_Y0 0 true false [3] [mkStage [0; 1] [(0, 1)] [(0, [1])]]
+             [(0, [[(3#8)%Q]; [(11#16)%Q]; [(41#64)%Q]])] [(1, ([[(1664#3985)%Q]], [(2606#3985)%Q]))] = true.
+Proof. exact chk_fit_fb_example. Qed.
+Example C06_chk_esn_fit_example :
+  chk_esn_fit exC06_res exC06_rd exC06_r exC06_X0 exC06_Y0 0 [3] [[(3#8)%Q]; [(11#16)%Q]; [(41#64)%Q]] [[(1664#3985)%Q]] [(2606#3985)%Q] = true.
+Proof. exact chk_esn_fit_example. Qed.
+
+Print Assumptions C06_Qfit_fb_embeds.
+Print Assumptions C06_Qesn_fit_embeds.
+Print Assumptions C06_fb_vocabulary.
+Print Assumptions C06_chk_fit_fb_is_about_R_model.
+Print Assumptions C06_chk_esn_fit_is_about_R_model.
